@@ -77,8 +77,10 @@ pub fn start_watchdog(limit_ms: u64) {
                 let _ = std::fs::create_dir_all(&dir);
                 let p = dir.join("watchdog-input.json");
                 let _ = std::fs::write(&p, json!({"kind":"frame","check":"total","hex":cur,"note":"worker made no progress; hang suspected"}).to_string());
-                println!("INCONCLUSIVE: watchdog: a case ran longer than {limit_ms} ms (input saved to {})", p.display());
-                std::process::exit(2);
+                println!("WATCHDOG: a case ran longer than {limit_ms} ms (input saved to {})", p.display());
+                // exit status 3: the dispatcher re-runs the saved input under a CPU-time limit to tell a
+                // genuine non-terminating decode from a stalled machine
+                std::process::exit(3);
             }
         }
     });
@@ -210,6 +212,20 @@ static MAX_ALLOC: AtomicU64 = AtomicU64::new(0);
 static MAX_ALLOCS: AtomicU64 = AtomicU64::new(0);
 
 pub fn replay_c01(v: &Value) -> Vec<Failure> {
+    if v.get("kind").and_then(|k| k.as_str()) == Some("long_lived") {
+        let n = v["n"].as_u64().unwrap_or(150_000);
+        let me = [0x20u8, 0x04, 0x10, 0x41, 0x04, 0x10, 0x41];
+        let b = squitter(17, 5, 0x40621d, &me);
+        let mut p = Airplanes::new();
+        let r = catch_unwind(AssertUnwindSafe(|| {
+            for _ in 0..n {
+                if let Ok(f) = Frame::from_bytes(&b) {
+                    let _ = p.action(f, (52.0, 4.0), 500.0);
+                }
+            }
+        }));
+        return if r.is_err() { vec![Failure { sig: "C01/panic/tracker/long_lived".into(), msg: format!("tracker panicked at {}", last_panic()), replay: v.clone() }] } else { vec![] };
+    }
     let Some(buf) = bits::unhex(v.get("hex").and_then(|h| h.as_str()).unwrap_or("")) else { return vec![] };
     let mut out = vec![];
     let rx = (v.get("rx_lat").and_then(|x| x.as_f64()).unwrap_or(52.0), v.get("rx_lon").and_then(|x| x.as_f64()).unwrap_or(4.0));
@@ -363,6 +379,37 @@ pub fn run_c01(ctx: &Ctx) -> ! {
                 let mut b = gen_frame_df(&mut rng, df);
                 set(&mut b, 20, 13, code);
                 case(st, &mut t, b, "rejected sweep");
+            }
+        }
+        // (c2) one long-lived aircraft: far more frames than any 16-bit counter holds, never pruned
+        if w == 0 {
+            let n_long = 150_000u32;
+            let mut lt = TrackerCtx::new((52.0, 4.0), 500.0);
+            let mut frames: Vec<Vec<u8>> = vec![];
+            for tc in [4u8, 11, 19, 29, 31, 0] {
+                let mut me = gen_me(&mut rng, tc);
+                if tc == 31 {
+                    set(&mut me, 6, 3, 3);
+                }
+                frames.push(squitter(17, 5, 0x40621d, &me));
+                frames.push(squitter(18, 2, 0x40621d, &me));
+            }
+            begin_case(w, &frames[0]);
+            let r = catch_unwind(AssertUnwindSafe(|| {
+                for i in 0..n_long {
+                    if i % 1024 == 0 {
+                        HEARTBEAT[w].store(now_ms(), Ordering::Relaxed);
+                    }
+                    if let Ok(f) = Frame::from_bytes(&frames[i as usize % frames.len()]) {
+                        let _ = lt.planes.action(f, lt.rx, lt.range);
+                    }
+                }
+            }));
+            st.evaluations += n_long as u64;
+            st.nontrivial_enum += 1;
+            st.class("long-lived aircraft (150 k frames)");
+            if r.is_err() {
+                st.fail(Failure { sig: "C01/panic/tracker/long_lived".into(), msg: format!("feeding {n_long} frames of one aircraft to the tracker panicked at {}", last_panic()), replay: json!({"kind":"long_lived","n":n_long}) });
             }
         }
         // (d) all ordered pairs from a pool of decodable position reports
